@@ -124,6 +124,8 @@ def script_cases(rnd, quick):
             shape = shape + "+" + which
         # corruption
         c = rnd.randrange(19)
+        if rep % 3 != 0 and shape.startswith("multisig") and not segwit and len(stack) > 2 and "codesep" not in shape:
+            c = 14          # (often enough to be there in every run)
         if c == 0 and stack:
             j = rnd.randrange(len(stack)); b = bytearray(stack[j])
             if b:
@@ -186,9 +188,14 @@ def script_cases(rnd, quick):
             stack = [sign(rnd, sk, tx, idx, script, ht, segwit, amount)]; label = "key-length"
         elif c == 13 and shape.startswith("multisig"):
             stack = stack[1:]; label = "no-dummy"
-        elif c == 14 and shape.startswith("multisig") and len(stack) > 1 and not segwit:
-            # a signature of the multisig also occurs in the script: FindAndDelete under CONST_SCRIPTCODE
-            script = P.push(stack[1]) + bytes([0x75]) + script; label = "multisig-find-and-delete"
+        elif c == 14 and shape.startswith("multisig") and len(stack) > 1 and not segwit and "codesep" not in shape:
+            # a signature of the multisig also occurs in the script (any one of them, not just the first compared): FindAndDelete removes its
+            # push from the script code of EVERY signature (CONST_SCRIPTCODE forbids); the signatures are made over the code without it
+            code2 = bytes([0x75]) + script
+            sigs2 = [sign(rnd, sks[w], tx, idx, code2, ht, segwit, amount) for w in which]
+            jj = rnd.randrange(len(sigs2))
+            stack = [dummy] + sigs2
+            script = P.push(sigs2[jj]) + code2; label = "multisig-find-and-delete"
         elif c == 15:
             # only LOW_S on, the signature not DER at all
             fl = (R.STD | (1 << FB["LOW_S"])) & ~(1 << FB["DERSIG"]) & ~(1 << FB["STRICTENC"])
